@@ -36,6 +36,19 @@ def curate(rng, st, nt):
     """spike_clusters from spike_templates by random merges / splits / reassignments"""
     sc = list(st)
     nxt = nt
+    if rng.random() < .25:
+        # curation that only moves spikes between EXISTING ids: the set of ids stays the set of template ids
+        ids = sorted(set(sc))
+        if len(ids) >= 2:
+            for _ in range(rng.randrange(1, 4)):
+                a, b = rng.sample(ids, 2)
+                ia = [i for i, c in enumerate(sc) if c == a]
+                ib = [i for i, c in enumerate(sc) if c == b]
+                if len(ia) >= 2:
+                    sc[rng.pick(ia)] = b
+                if len(ib) >= 2:
+                    sc[rng.pick(ib)] = a
+            return sc
     for _ in range(rng.randrange(1, 4)):
         op = rng.randrange(3)
         ids = sorted(set(sc))
@@ -55,7 +68,7 @@ def curate(rng, st, nt):
 
 
 def dense_spec(rng, nt=None, nc=None, ns=None, nsw=None, curated=None, whiten=None, feats=True, raw=False,
-               empty='random', shanks=None, probes=False, amp_nonneg=True):
+               empty='random', shanks=None, probes=False, amp_nonneg=True, cmap='identity'):
     nc = nc or rng.randrange(2, 8)
     nt = nt or rng.randrange(2, 6)
     ns = ns or rng.randrange(3, 16)
@@ -79,7 +92,7 @@ def dense_spec(rng, nt=None, nc=None, ns=None, nsw=None, curated=None, whiten=No
         n_channels=nc, n_channels_dat=nc, sample_rate=rng.pick([1000., 2000., 25000., 2500., 12500., 24414.0625, 500., 30000.]), dtype='int16', offset=0,
         spike_samples=sorted(rng.randrange(0, n_raw) for _ in range(ns)), spike_templates=st,
         amplitudes=[(rng.randrange(0, 17) if amp_nonneg else rng.randrange(-8, 17)) / 4. for _ in range(ns)],
-        channel_map=list(range(nc)),
+        channel_map=list(range(nc)),        # replaced below when cmap='random'
         channel_positions=D._positions(rng, nc),
         templates=[[[float(rng.randrange(-8, 9)) for _ in range(nc)] for _ in range(nsw)] for _ in range(nt)],
     )
@@ -117,8 +130,23 @@ def dense_spec(rng, nt=None, nc=None, ns=None, nsw=None, curated=None, whiten=No
         if rng.random() < .15:      # a spike whose positive part vanishes
             spec['pc_features'][rng.randrange(ns)][0] = [float(-rng.randrange(0, 3)) for _ in range(nloc)]
         spec['pc_feature_ind'] = [rng.sample(range(nc), nloc) for _ in range(nt)]
+    ncd = nc
+    if cmap == 'random':
+        # a permuted channel map, possibly with dead raw channels (not necessarily containing raw channel 0)
+        ncd = nc + rng.randrange(0, 4)
+        spec['n_channels_dat'] = ncd
+        spec['channel_map'] = rng.sample(range(ncd), nc)
     if raw:
-        spec['raw'] = [[[((r * 7 + c * 3) % 41) - 20 for c in range(nc)] for r in range(n_raw)]]
+        spec['raw'] = [[[((r * 7 + c * 3) % 41) - 20 for c in range(ncd)] for r in range(n_raw)]]
+    if rng.random() < .3:
+        # non-default channel neighbourhood / amplitude threshold configured in params.py: in force when the
+        # model computes its cluster waveforms at load time
+        spec['params_extra'] = dict(n_closest_channels=rng.pick([1, 2, 3]))
+        if rng.random() < .4:
+            spec['params_extra']['amplitude_threshold'] = rng.pick([0.25, 0.5])
+    if rng.random() < .35:
+        # non-default scaling of unwhitened templates (params.py entry), a power of two or a small integer
+        spec['template_scaling'] = rng.pick([2.0, 0.5, 20.0, 4.0])
     return spec
 
 
